@@ -82,10 +82,10 @@ func c11A5Locations(m *c11Model) *c11Locs {
 			f := ev.lhs.xs[1]
 			var i, j, refs *c11V
 			if f.k == "index" {
-				if _, ok := c11IsIterKey(f.xs[1]); ok && f.xs[0].k == "res" && f.xs[0].id == 0 {
+				if _, ok := m.isPosition(p.st, f.xs[1], f.xs[0]); ok && f.xs[0].k == "res" && f.xs[0].id == 0 {
 					if rv, _, ok := f.xs[0].xs[0].isMethodCall(c11CorePath+".Parent", "Refs"); ok {
 						if x, ok := m.isParent(rv); ok {
-							if _, ok := c11IsIterKey(x); ok {
+							if _, ok := m.isPosition(p.st, x, m.P); ok {
 								i, j, refs = x, f.xs[1], f.xs[0].xs[0]
 							}
 						}
@@ -96,7 +96,7 @@ func c11A5Locations(m *c11Model) *c11Locs {
 				bad = append(bad, "`"+src(r.P.Fset, ev.node)+"`: the location is not stored under refs[j] for refs of parents[i].Refs() with i, j the positions being visited (key is "+m.short(f)+")")
 				continue
 			}
-			inner, _ := c11IsIterKey(j)
+			inner, _ := m.isPosition(p.st, j, f.xs[0])
 			sites = append(sites, site{p: p, ev: ev, i: i, j: j, refs: refs, inner: inner, struct_: p.st.heap[s.id]})
 			res.mapKey = mp.key()
 			res.locType = s.typ
@@ -208,7 +208,7 @@ func (m *c11Model) groupOf(st *c11St, upto int, locs *c11Locs) *c11Group {
 	if G.k != "index" {
 		return nil
 	}
-	gl, ok := c11IsIterKey(G.xs[1])
+	gl, ok := m.isPosition(st, G.xs[1], G.xs[0])
 	if !ok {
 		return nil
 	}
@@ -323,23 +323,29 @@ func (m *c11Model) a5Current(locs *c11Locs) {
 				continue
 			}
 			m.addAlias(cur, "cur")
-			fa := cur.xs[1:]
-			if len(fa) != 3 {
-				bad = append(bad, "FindVisible is not called with (changeset, time, threshold)")
-			} else {
-				if !fa[1].mentions(m.P.key()) || !fa[1].mentions(g.I.key()) {
-					bad = append(bad, "the time argument "+m.short(fa[1])+" of FindVisible does not derive from the parent of the group")
+			okTime, okThr := false, false
+			for _, a := range cur.xs[1:] {
+				if _, _, isCS := a.isMethodCall(c11CorePath+".Parent", "ChangesetID"); isCS {
+					continue
 				}
-				if !m.optTerm(st, fa[2], "Threshold") {
-					bad = append(bad, "the threshold argument "+m.short(fa[2])+" of FindVisible is not opts.Threshold (the Threshold option would have no effect on which child version is taken as current)")
+				if m.optTerm(st, a, "Threshold") {
+					okThr = true
+				} else if a.mentions(m.P.key()) && a.mentions(g.I.key()) {
+					okTime = true
 				}
+			}
+			if !okTime {
+				bad = append(bad, "no argument of "+m.short(cur)+" is a time derived from the parent of the group")
+			}
+			if !okThr {
+				bad = append(bad, "no argument of "+m.short(cur)+" is opts.Threshold (the Threshold option would have no effect on which child version is taken as current)")
 			}
 			if args[1].key() != cur.key() {
 				bad = append(bad, "`"+src(r.P.Fset, ev.node)+"` stores "+m.short(args[1])+", not the child version FindVisible returned for this parent")
 			}
 			okIdx := false
 			if a0 := args[0]; a0.k == "field" && a0.obj == locs.indexField && a0.xs[0].k == "index" && a0.xs[0].xs[0].key() == g.G.key() {
-				if _, ok := c11IsIterKey(a0.xs[0].xs[1]); ok {
+				if _, ok := m.isPosition(st, a0.xs[0].xs[1], g.G); ok {
 					okIdx = true
 				}
 			}
@@ -366,19 +372,43 @@ type c11Window struct {
 	start  *c11V  // value of k when the loop is entered
 	startN int    // assumptions in force when the loop is entered
 	E      *c11V  // bound: k < E decided at the loop head
+
+	sliceForm bool  // the loop ranges over child[start:E]
+	V         *c11V // the symbol of the loop variable at the head of an iteration (K is V plus a constant)
 }
 
 // windowOf finds the window loop entered on the path (nil when the path does not enter it).
-func (m *c11Model) windowOf(st *c11St, key string, kObj types.Object) *c11Window {
+func (m *c11Model) windowOf(st *c11St, key string, kSym *c11V) *c11Window {
 	for _, ev := range st.ev {
 		if ev.kind != "loop" || ev.key != key {
 			continue
 		}
-		w := &c11Window{key: key, kObj: kObj, K: c11Sym("loop@"+key+":"+kObj.Name(), kObj), start: ev.pre[kObj], startN: ev.nas}
-		// the first decision after the loop head that mentions k
+		if _, isIter := c11IsIterKey(kSym); isIter {
+			// `for _, v := range child[start:end]`: start, strict end and the step are given by the slice expression
+			x := ev.x
+			if x == nil || x.k != "slice" || x.xs[0].key() != m.childT.key() {
+				return nil
+			}
+			w := &c11Window{key: key, K: kSym, V: kSym, start: x.xs[1], E: x.xs[2], startN: ev.nas, sliceForm: true}
+			if w.start.name == "-" && w.start.k == "sym" {
+				w.start = c11Int(0)
+			}
+			if w.E.name == "-" && w.E.k == "sym" {
+				w.E = &c11V{k: "call", name: "len", xs: []*c11V{m.childT}}
+			}
+			return w
+		}
+		// the index used is the loop variable plus a constant (child[k], or child[k+1] after an early k++)
+		v, off := c11PlusConst(kSym)
+		kObj := v.obj
+		w := &c11Window{key: key, kObj: kObj, K: kSym, V: v, startN: ev.nas}
+		if pre := ev.pre[kObj]; pre != nil {
+			w.start = c11Bin(token.ADD, pre, c11Int(off))
+		}
+		// the first decision after the loop head that mentions the loop variable
 		for i := ev.nas; i < len(st.as); i++ {
 			a := st.as[i]
-			if a.atom.mentions(w.K.key()) {
+			if a.atom.mentions(v.key()) {
 				if a.atom.k == "bin" && a.atom.op == token.LSS && a.atom.xs[0].key() == w.K.key() {
 					w.E = a.atom.xs[1]
 				}
@@ -388,6 +418,18 @@ func (m *c11Model) windowOf(st *c11St, key string, kObj types.Object) *c11Window
 		return w
 	}
 	return nil
+}
+
+// childAt recognises child[K] and child[a:b][K]; returns K.
+func (m *c11Model) childAt(rv *c11V) (*c11V, bool) {
+	if rv == nil || rv.k != "index" {
+		return nil, false
+	}
+	b := rv.xs[0]
+	if b.key() == m.childT.key() || (b.k == "slice" && b.xs[0].key() == m.childT.key()) {
+		return rv.xs[1], true
+	}
+	return nil, false
 }
 
 func (m *c11Model) a5Window(locs *c11Locs) {
@@ -401,18 +443,25 @@ func (m *c11Model) a5Window(locs *c11Locs) {
 	updLoops := map[string]bool{} // loops over the group that build updates
 	for _, p := range m.paths {
 		st := p.st
-		for n, ev := range st.ev {
+		for _, ev := range st.ev {
 			if ev.kind != "call" {
 				continue
 			}
 			rv, _, ok := ev.call.isMethodCall(c11SharedPath+".Child", "Update")
-			if !ok || rv.k != "index" || rv.xs[0].key() != m.childT.key() {
+			if !ok {
+				continue
+			}
+			K, ok := m.childAt(rv)
+			if !ok {
 				continue
 			}
 			nUpd++
 			pos = ev.node.Pos()
-			K := rv.xs[1]
-			lk, isLoop := c11IsLoopSym(K)
+			kv, _ := c11PlusConst(K)
+			lk, isLoop := c11IsLoopSym(kv)
+			if rv.xs[0].k == "slice" {
+				lk, isLoop = c11IsIterKey(K)
+			}
 			if !isLoop {
 				r.Unknown("window@Compute loop", pos, "`%s`: the index %s of the child version turned into an update is not a loop variable", src(r.P.Fset, ev.node), m.short(K))
 				return
@@ -428,39 +477,78 @@ func (m *c11Model) a5Window(locs *c11Locs) {
 			if st.decided(ev.nas, func(a *c11V) bool { return a.key() == vis.key() }) != c11T {
 				visBad = append(visBad, "`"+src(r.P.Fset, ev.node)+"` ("+r.P.Rel(pos)+") is reached on a path that has not decided child[k].Visible == true")
 			}
-			// the update gets the location's index and is appended as built
-			g := m.groupOf(st, ev.nas, locs)
-			okIdx, okApp := false, false
-			for _, e2 := range st.ev[n+1:] {
-				switch {
-				case e2.kind == "store" && e2.lhs.k == "field" && e2.lhs.obj.Name() == "Index" && e2.lhs.xs[0].key() == ev.call.key():
-					okIdx = false
-					if v := e2.rhs; g != nil && v.k == "field" && v.obj == locs.indexField && v.xs[0].k == "index" && v.xs[0].xs[0].key() == g.G.key() {
-						if lk2, ok := c11IsIterKey(v.xs[0].xs[1]); ok {
-							okIdx = true
-							updLoops[lk2] = true
-						}
-					}
-				case e2.kind == "call" && e2.call.name == "append" && len(e2.call.xs) == 2 && e2.call.xs[1].key() == ev.call.key():
-					if _, ok := c11IsLoopSym(e2.call.xs[0]); ok && okIdx {
-						okApp = true
-					}
-				}
-			}
-			if p.ctl == c11Back || p.ctl == c11Return {
-				if !okIdx {
-					idxBad = append(idxBad, "on some path the update built by `"+src(r.P.Fset, ev.node)+"` does not get Index = <cl>."+locs.indexField.Name()+" of a location cl of the group: ApplyUpdatesUpTo would change another child than the one whose history produced the update")
-				} else if !okApp {
-					idxBad = append(idxBad, "on some path the update built by `"+src(r.P.Fset, ev.node)+"` is not appended (after its Index is set) to the list the loop accumulates")
-				}
-			}
 		}
 	}
 	if kSym == nil {
 		r.Anchor("`<child>[k].Update()` on the fetched child list in core.Compute")
 		return
 	}
-	// every iteration of an update-building loop over the group builds exactly one update (no location skipped)
+	// Every value appended to an update list that is (a local copy of) child[k].Update() carries Index =
+	// <cl>.<index field> for a location cl of the group. It does not matter where Update() is called (inside
+	// or before the loop over the locations, in Compute or in a helper): the value appended is what counts.
+	isUpdateOfK := func(v *c11V) bool {
+		rv, _, ok := v.isMethodCall(c11SharedPath+".Child", "Update")
+		if !ok {
+			return false
+		}
+		K, ok := m.childAt(rv)
+		return ok && K.key() == kSym.key()
+	}
+	updateAppended := func(st *c11St, ev c11Ev) (idx *c11V, extra []string, ok bool) {
+		if ev.kind != "call" || ev.call.name != "append" || len(ev.call.xs) != 2 || namedPath(ev.call.typ) != core.ModulePath+".Updates" {
+			return nil, nil, false
+		}
+		v := ev.call.xs[1]
+		if isUpdateOfK(v) {
+			return nil, nil, true
+		}
+		if v.k == "struct" {
+			if o := st.heap[v.id]; o != nil && o.base != nil && isUpdateOfK(o.base) {
+				for _, k := range o.names() {
+					if k != "Index" {
+						extra = append(extra, k)
+					}
+				}
+				return o.f["Index"], extra, true
+			}
+		}
+		return nil, nil, false
+	}
+	nAppUpd := 0
+	for _, p := range m.paths {
+		st := p.st
+		for _, ev := range st.ev {
+			idx, extra, ok := updateAppended(st, ev)
+			if !ok {
+				continue
+			}
+			nAppUpd++
+			where := "`" + src(r.P.Fset, ev.node) + "` (" + r.P.Rel(ev.node.Pos()) + ")"
+			g := m.groupOf(st, ev.nas, locs)
+			switch {
+			case idx == nil:
+				idxBad = append(idxBad, where+" appends child[k].Update() without setting its Index: ApplyUpdatesUpTo would change another child than the one whose history produced the update")
+			case g == nil || !(idx.k == "field" && idx.obj == locs.indexField && idx.xs[0].k == "index" && idx.xs[0].xs[0].key() == g.G.key()):
+				idxBad = append(idxBad, where+" appends an update whose Index is "+m.short(idx)+", not <cl>."+locs.indexField.Name()+" of a location cl of the group: ApplyUpdatesUpTo would change another child than the one whose history produced the update")
+			default:
+				if lk, ok := m.isPosition(st, idx.xs[0].xs[1], g.G); ok {
+					updLoops[lk] = true
+				} else {
+					idxBad = append(idxBad, where+": the location "+m.short(idx.xs[0])+" is not the one of the iteration over the group")
+				}
+			}
+			if len(extra) > 0 {
+				idxBad = append(idxBad, where+" appends an update whose fields {"+strings.Join(extra, ",")+"} were overwritten after Update() built it")
+			}
+			if _, ok := c11IsLoopSym(ev.call.xs[0]); !ok {
+				idxBad = append(idxBad, where+" does not append to the list the loop accumulates")
+			}
+		}
+	}
+	if nAppUpd == 0 {
+		idxBad = append(idxBad, "no child[k].Update() value is ever appended to an update list")
+	}
+	// every iteration over the locations of the group appends exactly one update (no location skipped)
 	for _, p := range m.paths {
 		if p.ctl != c11Back || !updLoops[p.loopKey] {
 			continue
@@ -471,17 +559,14 @@ func (m *c11Model) a5Window(locs *c11Locs) {
 			if ev.kind == "loop" && ev.key == p.loopKey {
 				after = true
 			}
-			if after && ev.kind == "call" {
-				if _, _, ok := ev.call.isMethodCall(c11SharedPath+".Child", "Update"); ok {
-					n++
-				}
+			if _, _, ok := updateAppended(p.st, ev); ok && after {
+				n++
 			}
 		}
 		if n != 1 {
-			idxBad = append(idxBad, "an iteration over the locations of the group can end without building its update (or builds several): a location of the child would get no update")
+			idxBad = append(idxBad, "an iteration over the locations of the group can end without appending its update (or appends several): a location of the child would get no update")
 		}
 	}
-	kObj := kSym.obj
 	// loop shape / start / end, per path entering the loop
 	var loopBad, startBad, endBad []string
 	nEnter, nBack := 0, 0
@@ -489,7 +574,7 @@ func (m *c11Model) a5Window(locs *c11Locs) {
 	var winPos = pos
 	for _, p := range m.paths {
 		st := p.st
-		w := m.windowOf(st, winKey, kObj)
+		w := m.windowOf(st, winKey, kSym)
 		if w == nil {
 			continue
 		}
@@ -501,18 +586,20 @@ func (m *c11Model) a5Window(locs *c11Locs) {
 		}
 		cur := m.curOf(st, g.I)
 		// ---- loop
-		inBody := false // the path is inside the body (decided k < E true)
-		if w.E != nil {
+		inBody := w.sliceForm // the path is inside the body (decided k < E true)
+		if w.E != nil && !w.sliceForm {
 			inBody = st.known(c11Bin(token.LSS, w.K, w.E), -1) == c11T
 		}
-		if w.E == nil {
+		if w.sliceForm {
+			// start, strict bound and step are those of ranging over child[start:E]
+		} else if w.E == nil {
 			// exit paths decide the same atom false; only complain when no bound was found at all
 			if p.ctl == c11Back && p.loopKey == winKey {
 				loopBad = append(loopBad, "the loop condition is not the strict `k < <end>`: the child version that belongs to the next parent version would also be emitted as an update of this one")
 			} else {
 				dec := false
 				for i := w.startN; i < len(st.as); i++ {
-					if st.as[i].atom.mentions(w.K.key()) {
+					if st.as[i].atom.mentions(w.V.key()) {
 						dec = true
 					}
 				}
@@ -520,12 +607,14 @@ func (m *c11Model) a5Window(locs *c11Locs) {
 					loopBad = append(loopBad, "the loop condition is not the strict `k < <end>`: the child version that belongs to the next parent version would also be emitted as an update of this one")
 				}
 			}
-		} else if w.E.mentions(w.K.key()) {
+		} else if w.E.mentions(w.V.key()) {
 			loopBad = append(loopBad, "the bound of the window loop depends on k")
 		}
 		if p.ctl == c11Back && p.loopKey == winKey {
 			nBack++
-			if v := st.env[kObj]; v == nil || v.key() != c11Bin(token.ADD, w.K, c11Int(1)).key() {
+			if w.sliceForm {
+				// nothing to check
+			} else if v := st.env[w.kObj]; v == nil || v.key() != c11Bin(token.ADD, w.V, c11Int(1)).key() {
 				loopBad = append(loopBad, "k is not advanced by exactly one per iteration (it is "+m.short(v)+" at the end of an iteration)")
 			}
 		}
@@ -545,15 +634,8 @@ func (m *c11Model) a5Window(locs *c11Locs) {
 					startBad = append(startBad, "with a current child the window starts at "+m.short(S)+": it must start at cur.VersionIndex + 1 (starting at the version itself emits the version already annotated on the parent again as an update; ChildList index == VersionIndex by A4)")
 				}
 			case c11T:
-				// VersionBefore(<time of this parent>) on the child list
-				var vb *c11V
-				for _, ev := range st.ev {
-					if ev.kind == "call" && ev.nas <= w.startN {
-						if rv, args, ok := ev.call.isMethodCall(c11CorePath+".ChildList", "VersionBefore"); ok && rv.key() == m.childT.key() && len(args) == 1 && args[0].mentions(g.I.key()) && !args[0].mentions(c11Bin(token.ADD, g.I, c11Int(1)).key()) {
-							vb = ev.call
-						}
-					}
-				}
+				// the selector consulted with only the time of this parent: VersionBefore(<time of this parent>)
+				vb := m.selectorBefore(st, g.I, w.startN)
 				switch {
 				case vb != nil && st.isNil(vb, w.startN) == c11F:
 					if base.isFieldOf(vb.key(), "VersionIndex") && n == 1 {
@@ -591,6 +673,9 @@ func (m *c11Model) a5Window(locs *c11Locs) {
 				}
 				if _, isIter := c11IsIterKey(idx); isIter {
 					return
+				}
+				if _, isCount := c11IsLoopSym(idx); isCount {
+					return // the position of a loop over parents (the location map)
 				}
 				if idx.key() != next.xs[1].key() {
 					endBad = append(endBad, what+" uses parents["+m.short(idx)+"]: within a group only parents[I] and the next version parents[I+1] may be consulted; otherwise the update window does not end at the following version of the parent")
@@ -673,7 +758,40 @@ func (m *c11Model) a5Window(locs *c11Locs) {
 	} else {
 		r.OK(c, pos, "in every iteration over the locations cl of the group exactly one update u = child[k].Update() is built, gets u.Index = cl.%s and is appended to the accumulated list", locs.indexField.Name())
 	}
-	m.a5winKey, m.a5kObj = winKey, kObj
+	m.a5winKey, m.a5kSym = winKey, kSym
+}
+
+// isPosition: idx is the position of an iteration over list on this path: the key of a range loop, or the
+// variable of a counting loop that started at 0, runs under idx < len(list) and (on every path that completes
+// an iteration) is advanced by exactly one. Returns the loop key.
+func (m *c11Model) isPosition(st *c11St, idx, list *c11V) (string, bool) {
+	if lk, ok := c11IsIterKey(idx); ok {
+		return lk, true
+	}
+	lk, ok := c11IsLoopSym(idx)
+	if !ok {
+		return "", false
+	}
+	started := false
+	for _, ev := range st.ev {
+		if ev.kind == "loop" && ev.key == lk {
+			if pre := ev.pre[idx.obj]; pre != nil && pre.isConstInt(0) {
+				started = true
+			}
+		}
+	}
+	lenL := &c11V{k: "call", name: "len", xs: []*c11V{list}}
+	if !started || st.truth(c11Bin(token.LSS, idx, lenL)) != c11T {
+		return "", false
+	}
+	for _, p := range m.paths {
+		if p.ctl == c11Back && p.loopKey == lk {
+			if end := p.st.env[idx.obj]; end == nil || end.key() != c11Bin(token.ADD, idx, c11Int(1)).key() {
+				return "", false
+			}
+		}
+	}
+	return lk, true
 }
 
 func sortStrings(xs []string) {
@@ -708,7 +826,7 @@ func (m *c11Model) a5Results(locs *c11Locs) {
 	lenP := &c11V{k: "call", name: "len", xs: []*c11V{m.P}}
 	for _, p := range m.paths {
 		st := p.st
-		w := m.windowOf(st, m.a5winKey, m.a5kObj)
+		w := m.windowOf(st, m.a5winKey, m.a5kSym)
 		stored := false
 		for _, ev := range st.ev {
 			if ev.kind != "store" || ev.lhs.k != "index" || ev.rhs.k != "call" || ev.rhs.name != "append" || namedPath(ev.rhs.typ) != core.ModulePath+".Updates" {
